@@ -263,6 +263,8 @@ pub fn static_gate() {
     gate::<Error>();
     gate::<Token>();
     gate::<Tokenizer>();
+    // iterator types the public API hands out by value
+    gate::<<ValueTuple as IntoIterator>::IntoIter>();
 }
 
 /// Names asserted by `static_gate` only (no public way to construct a non-trivial instance).
@@ -845,7 +847,29 @@ fn pg_ext(rig: &mut Rig) {
     );
 }
 
+/// A deeply nested expression: every worker walks it recursively at the same time (rendering, Debug,
+/// clone, `==`, drop). The depth is far below any sane per-rendering limit but several renderings in
+/// flight add up to thousands of levels.
+fn deep_expr() -> SimpleExpr {
+    let depth = if crate::LITE.load(std::sync::atomic::Ordering::Relaxed) { 24 } else { 400 };
+    let mut e: SimpleExpr = Expr::col(pool().a.clone()).into();
+    for i in 0..depth {
+        e = if i % 2 == 0 { e.add(Expr::val(i as i32)) } else { Expr::val(i as i32).mul(e) };
+    }
+    e
+}
+
+/// `inject_parameters` as another rendering route over shared input, preceded each time by a call that is
+/// given too few values (it panics for that caller only; nothing may be left behind for the others).
+fn inject_with_fault(t: &(String, Values)) -> String {
+    let bad = std::panic::catch_unwind(|| inject_parameters("a = ? AND b = ?", [Value::from(1)], &MysqlQueryBuilder));
+    let ok = inject_parameters(&t.0, t.1 .0.clone(), &PostgresQueryBuilder);
+    format!("{} / faulty call panicked: {}", ok, bad.is_err())
+}
+
 fn misc(rig: &mut Rig) {
+    row!(rig, "SimpleExpr/deep", SimpleExpr, ce, deep_expr, |t| re(t.clone(), ALL));
+    row!(rig, "inject_parameters", (String, Values), n, || big_select().build(PostgresQueryBuilder), inject_with_fault);
     row!(rig, "MysqlQueryBuilder", MysqlQueryBuilder, n, || MysqlQueryBuilder, |t| {
         let (q, v) = big_select().build_any(t);
         format!("{q} {v:?} {}", table_create().build_any(t))
